@@ -60,6 +60,8 @@ func checkC03(c *Ctx) {
 	m.checkDoSync() // "never regressing an object to an older version" is the found/EQ|GT rows
 	checkWatcherTable(c) // the watch restarts from a fresh buffer at every list (no stale frame of the old watch survives the relist)
 	checkWatcherAPI(c)
+	checkListerTable(c) // "after at most one further relist, even if the watch never delivers": the relist cycle has no dead end
+	checkTickerTable(c)
 	checkControllerDistribute(c)
 	checkListHelpers(c)
 	checkErrPropagation(c, "T-SHAPE(list-helpers)", "", "extractList", "meta.ExtractList")
@@ -190,6 +192,7 @@ func checkC12(c *Ctx) {
 	kids := checkStopWiring(c)
 	checkJoinWaits(c, sites, runs, kids)
 	checkWaitForGraph(c, runs)
+	checkNotRunningErrors(c)
 	checkGoroutineInventory(c, rels, runs)
 	checkRunStartedOnce(c, runs)
 	checkBuilderFlows(c) // context cancellation can only stop what was built with the configured context
